@@ -215,9 +215,14 @@ def gen_deny(rng):
     deny_kind = rng.choice(kinds)
     shape = rng.choice(['32B', '256B-sub', '2KB'])
     pc_load = rng.random() < 0.3
+    srs = mode == 'svc' and rng.random() < 0.25
     for _ in range(60):
         w = ldst_word(rng, thumb)
-        if pc_load:
+        if srs:
+            # SRS: stores LR and SPSR of the current mode on the stack of ANOTHER mode, with write-back to that mode's banked SP
+            tgt = rng.choice([0x13, 0x12, 0x11, 0x1b, 0x1f])
+            w = T.srs(tgt, db=rng.getrandbits(1), w=rng.getrandbits(1)) if thumb else A.srs(tgt, p=rng.getrandbits(1), u=rng.getrandbits(1), w=rng.getrandbits(1))
+        if pc_load and not srs:
             # loads into the PC: every word of the data page holds the address of the done marker, so 'LDM ..{..,pc}' and
             # 'LDR pc,[..]' end the program wherever they load from
             if not thumb:
@@ -234,6 +239,9 @@ def gen_deny(rng):
         regs[13] = D + 8 * rng.randrange(-4, 8)
         mpu = base_mpu(rng, deny_kind, shape)
         core, meta = _one_shot_case(rng, w if not thumb or w > 0xFFFF else w, thumb, mode, te, regs, mpu)
+        if srs:
+            for bank in ('usr', 'svc', 'irq', 'fiq', 'und'):
+                core['regs']['R']['SP' + bank] = D + 8 * rng.randrange(-4, 8)
         if pc_load:
             done = core['done_pc'] | (1 if thumb else 0)
             core['devices'][2]['fill'] = done.to_bytes(4, 'little').hex()
@@ -262,6 +270,15 @@ def _with_deny(core, on, bg=False):
 def _shift_base(core, meta, word, delta):
     """shift the base register Rn (bits 19:16 for ARM and 32-bit Thumb; bits 5:3 / 10:8 / SP for 16-bit Thumb) by delta"""
     thumb = meta['thumb']
+    srs_bank = None
+    if (not thumb and (word & 0xFE5FFFE0) == 0xF84D0500) or (thumb and (word >> 16) & 0xFFDF in (0xE80D, 0xE98D) and (word & 0xFFE0) == 0xC000):
+        srs_bank = {0x13: 'svc', 0x12: 'irq', 0x11: 'fiq', 0x1b: 'und', 0x1f: 'usr', 0x10: 'usr', 0x17: 'abt', 0x16: 'mon'}.get(word & 0x1F)
+    if srs_bank is not None:
+        regs = dict(core['regs'])
+        R = dict(regs['R'])
+        R['SP' + srs_bank] = (R['SP' + srs_bank] + delta) & 0xFFFFFFFF
+        regs['R'] = R
+        return dict(core, regs=regs), 'SP' + srs_bank
     if not thumb or word > 0xFFFF:
         rn = (word >> 16) & 0xF
     else:
@@ -463,11 +480,14 @@ def run_deny(case):
         pre, post = rec['pre'], rec['post']
         preR, postR = dict(zip(M.RNAMES, pre[0])), dict(zip(M.RNAMES, post[0]))
         from sim.models.banking import phys
-        base_name = phys(rn, mode) if rn < 15 else None
-        in_list = _base_in_list(tap.op, rn)
+        if isinstance(rn, str):
+            base_name, in_list = rn, False          # SRS: the base is the named mode's banked SP
+        else:
+            base_name = phys(rn, mode) if rn < 15 else None
+            in_list = _base_in_list(tap.op, rn)
         if base_name and not in_list and postR[base_name] != preR[base_name]:
             viol.append({'oracle': 'mpu.deny', 'site': site, 'cls': 'base_register_written_back', 'tick': k,
-                         'detail': '%s (%#x) k=%d: base r%d %#x -> %#x although the instruction aborted' % (cls, word, j, rn, preR[base_name], postR[base_name])})
+                         'detail': '%s (%#x) k=%d: base %s %#x -> %#x although the instruction aborted' % (cls, word, j, base_name, preR[base_name], postR[base_name])})
             break
         if len(log) == 1:
             chg = [nme for nme in M.RNAMES if nme not in ('PC', 'LRabt') and postR[nme] != preR[nme]]
